@@ -39,20 +39,49 @@ pub mod net {
         tx: Arc<Chan>,
         /// how reads/writes are cut: 0 = as much as possible, otherwise seeded short transfers
         short: bool,
+        /// this end belongs to the emulator process (its writes vanish once the process is gone)
+        emu: bool,
     }
 
-    pub fn pair(short: bool) -> (TcpStream, TcpStream) {
+    /// Set when the simulated emulator process has exited (main returned): whatever its
+    /// threads still do to the stream is lost, and the kernel has closed the connection.
+    static PROCESS_GONE: std::sync::atomic::AtomicBool = std::sync::atomic::AtomicBool::new(false);
+
+    pub struct ProcessHandle {
+        to_peer: Arc<Chan>,
+    }
+    impl ProcessHandle {
+        pub fn exit(&self) {
+            PROCESS_GONE.store(true, std::sync::atomic::Ordering::SeqCst);
+            let mut d = self.to_peer.m.lock().unwrap();
+            d.closed = true;
+            drop(d);
+            self.to_peer.cv.notify_all();
+        }
+    }
+
+    /// (emulator end, controller end, handle to end the emulator process)
+    pub fn pair(short: bool) -> (TcpStream, TcpStream, ProcessHandle) {
+        PROCESS_GONE.store(false, std::sync::atomic::Ordering::SeqCst);
         let a = Arc::new(Chan { m: Mutex::new(Dir::default()), cv: Condvar::new() });
         let b = Arc::new(Chan { m: Mutex::new(Dir::default()), cv: Condvar::new() });
-        (TcpStream { rx: a.clone(), tx: b.clone(), short }, TcpStream { rx: b, tx: a, short })
+        (TcpStream { rx: a.clone(), tx: b.clone(), short, emu: true }, TcpStream { rx: b.clone(), tx: a, short, emu: false }, ProcessHandle { to_peer: b })
     }
 
     impl TcpStream {
         pub fn try_clone(&self) -> io::Result<TcpStream> {
-            Ok(TcpStream { rx: self.rx.clone(), tx: self.tx.clone(), short: self.short })
+            Ok(TcpStream { rx: self.rx.clone(), tx: self.tx.clone(), short: self.short, emu: self.emu })
         }
         pub fn shutdown(&self, how: std::net::Shutdown) -> io::Result<()> {
             use std::net::Shutdown::*;
+            if self.emu && PROCESS_GONE.load(std::sync::atomic::Ordering::SeqCst) {
+                // the kernel already closed the connection; make sure the emulator's own reader ends too
+                let mut d = self.rx.m.lock().unwrap();
+                d.closed = true;
+                drop(d);
+                self.rx.cv.notify_all();
+                return Ok(());
+            }
             if matches!(how, Write | Both) {
                 let mut d = self.tx.m.lock().unwrap();
                 d.closed = true;
@@ -98,6 +127,10 @@ pub mod net {
                 return Ok(0);
             }
             let mut d = self.tx.m.lock().unwrap();
+            if self.emu && PROCESS_GONE.load(std::sync::atomic::Ordering::SeqCst) {
+                // the thread no longer exists in the real world: nothing it writes arrives
+                return Ok(data.len());
+            }
             if d.closed {
                 return Err(io::Error::new(io::ErrorKind::BrokenPipe, "peer closed"));
             }
